@@ -225,8 +225,11 @@ Definition grp (gs : list bytes) (k : nat) : bytes := nth k gs [].
 
 Inductive mfilter := MAny | MPat (e : re).
 (* KAssign: url_dispatcher::assign (strings, no checks); KMap: url_dispatcher::map with std::string parameters;
-   KMapInt: url_dispatcher::map with int parameters (parse_url_parameter through an istream) *)
-Inductive hkind := KAssign | KMap | KMapInt.
+   KMapNum t: url_dispatcher::map with parameters of the integer type t (the generic parse_url_parameter: `parameter >> value`
+   through an istream, everything consumed); KMapInt = KMapNum TInt *)
+Inductive numty := TInt | TUInt | TLLong | TULLong | TShort | TUShort.
+Inductive hkind := KAssign | KMap | KMapNum (t : numty).
+Notation KMapInt := (KMapNum TInt).
 Inductive dopt :=
 | DH (k : hkind) (p : pattern) (mf : mfilter) (hid : N) (sel : list nat)
 | DM (p : pattern) (sel : nat) (kid : nat).
@@ -256,7 +259,16 @@ Definition dec_val (s : bytes) : N := fold_left (fun acc c => acc * 10 + (c - 48
 Definition is_space (c : N) : bool := ((9 <=? c) && (c <=? 13)) || (c =? 32).
 Fixpoint skip_ws (s : bytes) : bytes :=
   match s with [] => [] | c :: t => if is_space c then skip_ws t else s end.
-Definition parse_int (s : bytes) : option Z :=
+(* num_get<char>::_M_extract_int of libstdc++ (bits/locale_facets.tcc), base 10, no grouping: optional sign, digits, the
+   magnitude is accumulated with an overflow test against the largest magnitude of the type; signed types: the value must be
+   in the range of the type (short and int are read as long and then range-checked by operator>>, which is the same thing);
+   UNSIGNED types accept a minus sign: the magnitude must fit the type and the result is its negation modulo 2^bits
+   (-1 reads as the maximum, -0 as 0) *)
+Definition nt_bits (t : numty) : Z :=
+  match t with TInt | TUInt => 32 | TLLong | TULLong => 64 | TShort | TUShort => 16 end%Z.
+Definition nt_signed (t : numty) : bool :=
+  match t with TInt | TLLong | TShort => true | TUInt | TULLong | TUShort => false end.
+Definition parse_num (t : numty) (s : bytes) : option Z :=
   let s1 := skip_ws s in
   let '(neg, ds) := match s1 with
                     | [] => (false, s1)
@@ -265,13 +277,19 @@ Definition parse_int (s : bytes) : option Z :=
   if is_nil ds then None
   else if negb (forallb dec_digit ds) then None
   else let v := Z.of_N (dec_val ds) in
-       let z := if neg then (- v)%Z else v in
-       if ((z <? -2147483648) || (2147483647 <? z))%Z then None else Some z.
-Fixpoint parse_ints (l : list bytes) : option (list Z) :=
+       if nt_signed t then
+         let z := if neg then (- v)%Z else v in
+         if ((z <? - 2 ^ (nt_bits t - 1)) || (2 ^ (nt_bits t - 1) - 1 <? z))%Z then None else Some z
+       else
+         if (2 ^ nt_bits t - 1 <? v)%Z then None
+         else Some (if neg then ((2 ^ nt_bits t - v) mod 2 ^ nt_bits t)%Z else v).
+Definition parse_int : bytes -> option Z := parse_num TInt.
+Fixpoint parse_nums (t : numty) (l : list bytes) : option (list Z) :=
   match l with
   | [] => Some []
-  | s :: r => match parse_int s, parse_ints r with Some z, Some zs => Some (z :: zs) | _, _ => None end
+  | s :: r => match parse_num t s, parse_nums t r with Some z, Some zs => Some (z :: zs) | _, _ => None end
   end.
+Definition parse_ints : list bytes -> option (list Z) := parse_nums TInt.
 (* the harness prints an int argument in decimal *)
 Fixpoint digits (fuel : nat) (n : N) (acc : bytes) : bytes :=
   match fuel with
@@ -279,16 +297,16 @@ Fixpoint digits (fuel : nat) (n : N) (acc : bytes) : bytes :=
   | S f => let acc' := (48 + n mod 10) :: acc in if n / 10 =? 0 then acc' else digits f (n / 10) acc'
   end.
 Definition show_int (z : Z) : bytes :=
-  if (z <? 0)%Z then 45 :: digits 12 (Z.to_N (- z)) [] else digits 12 (Z.to_N z) [].
+  if (z <? 0)%Z then 45 :: digits 24 (Z.to_N (- z)) [] else digits 24 (Z.to_N z) [].
 
 (* what the handler receives for the selected groups raw, or None = the option declines (returns false) *)
 Definition arg_conv (k : hkind) (raw : list bytes) : option (list bytes) :=
   match k with
   | KAssign => Some raw
   | KMap => if forallb valid_text raw then Some raw else None
-  | KMapInt => if forallb valid_text raw then
-                 match parse_ints raw with Some zs => Some (map show_int zs) | None => None end
-               else None
+  | KMapNum t => if forallb valid_text raw then
+                   match parse_nums t raw with Some zs => Some (map show_int zs) | None => None end
+                 else None
   end.
 
 Definition method_ok (mf : mfilter) (m : bytes) : bool :=
@@ -317,13 +335,13 @@ Definition try_opt (kd : list kid_fn) (o : dopt) (url : bytes) (c : ctx) : optio
             end
           else None
       end
-  | DH KMapInt p mf hid sel =>
+  | DH (KMapNum t) p mf hid sel =>
       match c with
       | None => None
       | Some m =>
           if method_ok mf m then
             match pat_match p url with
-            | Some gs => match arg_conv KMapInt (map (grp gs) sel) with
+            | Some gs => match arg_conv (KMapNum t) (map (grp gs) sel) with
                          | Some args => Some (Fired hid args)
                          | None => None
                          end
